@@ -296,7 +296,9 @@ def proof_stage(prop: str) -> ProofStatus:
             st.ok = False
             st.problems.append(f"missing {propfile}")
             return st
-        ok, log = make([f"theories/Props/{prop}.vo"])
+        # the property file with its cone, and the executable models the harnesses evaluate
+        runs = sorted(f"theories/Model/{f.stem}.vo" for f in (COQ / "theories" / "Model").glob("*Run.v"))
+        ok, log = make([f"theories/Props/{prop}.vo", *runs])
         st.log += log
         cone = _cone(propfile)
         st.cone = [str(f.relative_to(COQ)) for f in cone]
